@@ -31,7 +31,7 @@ func checkC06(p *Prog, r *Report) {
 }
 
 func c06Evaporation(p *Prog, r *Report) {
-	r.Rule("C06.R1", "evaporation stops at a third of the wilting point: in the evaporation cascade the per-layer limit is floored at (WMIN/3)·DZ (floor idiom whose test and stored bound are the same expression), the deficit is handed to the next layer's demand, and every store of the layer's new water is the limit itself or exceeds it by a quantity its own guard makes positive", 4)
+	r.Rule("C06.R1", "evaporation stops at a third of the wilting point: in the evaporation cascade the per-layer limit is floored at (WMIN/3)·DZ (floor idiom whose test and stored bound are the same expression), the deficit is handed to the next layer's demand, and every store of the layer's new water is the limit itself or exceeds it by a quantity its own guard makes positive; the limit is that of the visited layer and is computed afresh in every iteration", 5)
 	x := walked(p, "hermes.Water")
 	if x == nil {
 		r.Ob("Water", "-", false, "hermes.Water not found")
@@ -62,6 +62,14 @@ func c06Evaporation(p *Prog, r *Report) {
 	// loop covers every layer
 	lo, hi, unit, why := loopBounds(x, L)
 	r.Ob("all-layers", p.Pos(L.Stmt.Pos()), why == "" && unit && lo.IsZero() && stripVersions(hi).Equal(cellP("GlobalVarsMain.N").Sub(PInt(1))), fmt.Sprintf("evaporation cascade over layers %s..%s (must be 0..N−1)", polyOr(lo), polyOr(hi)))
+	// the limit of the visited layer is computed afresh in every iteration, before it is floored and used
+	fresh := false
+	for _, e := range x.Events {
+		if e.Kind == "assign" && e.Root == "WaterSharedVars.LIMIT" && innermost(e, L) && len(e.Idx) == 1 && e.Idx[0].Equal(k) && e.Seq < floorE.Seq && len(inLoopGuards(e, L)) == 0 {
+			fresh = true
+		}
+	}
+	r.Ob("limit-fresh", p.Pos(floorE.Pos), fresh, fmt.Sprintf("LIMIT[%s] is assigned unconditionally in the same iteration before it is floored and read (otherwise the value left by an earlier call decides how far the layer may dry): %v", k, fresh))
 	// deficit handed down: EV[k+1] += EV[k] − (WATER[0][k] − bound) under the floor's guard
 	handed := false
 	for _, e := range x.Events {
@@ -98,6 +106,10 @@ func c06Evaporation(p *Prog, r *Report) {
 		}
 		ok := false
 		how := "no relation to the limit established"
+		if lim != nil && (len(lim.Idx) != 1 || !lim.Idx[0].Equal(k)) {
+			how = fmt.Sprintf("the limit it is compared with is LIMIT[%s], not the visited layer's LIMIT[%s]", lim.Idx[0], k)
+			lim = nil
+		}
 		if lim != nil {
 			d := e.Val.Sub(PAtom(lim))
 			if d.IsZero() {
